@@ -457,8 +457,13 @@ func (proj *Project) loadTargetInfo(label *label.Label) (targetInfo, error) {
 	}
 	defer f.Close()
 
+	// A key that is not a record's is a damaged record (a damaged "rerun" would otherwise read
+	// as "finished"), not something to skip over.
+	dec := json.NewDecoder(f)
+	dec.DisallowUnknownFields()
+
 	var info targetInfo
-	if err := json.NewDecoder(f).Decode(&info); err != nil {
+	if err := dec.Decode(&info); err != nil {
 		return targetInfo{}, err
 	}
 	return info, nil
